@@ -90,7 +90,8 @@ class HistGen:
 
     def __init__(self, rng, with_invalid=True, max_exp=3, simple_derived=0.0,
                  refless_derived=0.0, split_items=0.0, alias=0.12, odd_symbols=0.15,
-                 long_names=None, undefined_units=0.0, undefined_multiples=False):
+                 long_names=None, undefined_units=0.0, undefined_multiples=False,
+                 blank_symbols=False):
         self.rng = rng
         # probability that a unit WITHOUT definition is declared in a base
         # type that HAS a reference unit (it has no scale and converts to
@@ -99,6 +100,9 @@ class HistGen:
         # histories whose oracle does not read scales ask for them)
         self.undefined_units = undefined_units
         self.undefined_multiples = undefined_multiples
+        # two-word symbols (the directory dump of `observe` separates by blanks,
+        # so only contexts that do not read it ask for them)
+        self.blank_symbols = blank_symbols
         self.w = World()
         self.w.long_names = (rng.random() < .3) if long_names is None else long_names
         self.with_invalid = with_invalid
@@ -261,6 +265,11 @@ class HistGen:
             # equivalents (OHM SIGN, ANGSTROM SIGN, KELVIN SIGN, a decomposed
             # letter, a ligature): a symbol is an opaque string
             sym = rng.choice(["\u2126", "\u212b", "\u212a", "u\u0308", "\ufb01", "\u00b5\u2126"]) + sym
+            if self.blank_symbols and rng.random() < .4:
+                # a symbol made of two words, the first one a registered symbol
+                # itself ("sea mile", "N m"): a symbol is whatever follows the
+                # first blank of a text
+                sym = f"{s} {w.fresh('w')}"
         op = ["new_unit", u["cls"], sym, "qty", rat(k), s, MODE]
         w.units[sym] = dict(cls=u["cls"], scale=k * u["scale"], dim=u["dim"])
         w.classes[u["cls"]]["units"].append(sym)
@@ -402,6 +411,20 @@ class HistGen:
         w.classes[cls]["units"].append(sym)
         return dict(op=["new_unit", cls, sym, "none"], expect="ok",
                     kind="refless-unit", new_sym=sym)
+
+    def undefined_unit_in(self, cls=None):
+        """a unit WITHOUT definition in a base type that has a reference unit"""
+        w = self.w
+        lin = [n for n, c in w.classes.items()
+               if c["ref"] is not None and "items" not in c and c["quantum"] is None]
+        if cls is None:
+            if not lin:
+                return None
+            cls = self.rng.choice(lin)
+        sym = w.fresh("z")
+        w.units[sym] = dict(cls=cls, scale=None, dim=w.classes[cls]["dim"], undefined=True)
+        w.classes[cls]["units"].append(sym)
+        return dict(op=["new_unit", cls, sym, "none"], expect="ok", kind="undefined-unit", new_sym=sym)
 
     def refless_multiple(self):
         """a unit of a type WITHOUT reference unit declared as a multiple of one
